@@ -13,6 +13,7 @@ import (
 	sdk "github.com/cosmos/cosmos-sdk/types"
 	"github.com/ethereum/go-ethereum/common"
 
+	"github.com/functionx/fx-core/v8/testutil/helpers"
 	crosschainkeeper "github.com/functionx/fx-core/v8/x/crosschain/keeper"
 	crosschaintypes "github.com/functionx/fx-core/v8/x/crosschain/types"
 	erc20types "github.com/functionx/fx-core/v8/x/erc20/types"
@@ -160,6 +161,7 @@ type env struct {
 	keys  map[string]*storetypes.KVStoreKey
 	ntok  int
 	round int
+	signer *helpers.Signer
 }
 
 type token struct {
